@@ -1107,6 +1107,13 @@ def derived_cases(rng, tier, dv):
                    [rng.randrange(-nd, nd) if nd else 0 for _ in range(rng.choice([0, 1, 2, 3]))])
             op, f = '(DByaxis %s)' % coq_aidx(idx), (lambda: oS.byaxis[idx])
             what = ('byaxis', repr(idx))
+        elif S[0] == 'discr' and r < 0.45:
+            nd = len(S[1][1])
+            k = rng.random()
+            idx = (gen_int_index(rng, nd) if k < 0.35 else gen_slice(rng, nd) if k < 0.7 else
+                   [rng.randrange(-nd, nd) if nd else 0 for _ in range(rng.choice([0, 1, 2, 3]))])
+            op, f = '(DByaxisIn %s)' % coq_aidx(idx), (lambda: oS.byaxis_in[idx])
+            what = ('byaxis_in', repr(idx))
         elif r < 0.75:
             dt = rng.choice(alldt + ['float64', 'float32', 'complex128', 'int64'])
             npdt = {'U': 'U1', 'O': object}.get(dt, dt)
@@ -1375,13 +1382,6 @@ def cls_of(t):
 
 
 def law_key(law, things):
-    nd = set()
-    for t in things:
-        intv_ndims(t, nd)
-    if len(nd) > 1:
-        return 'intervalprod-eq-ndim-broadcast'
-    if law == 'hash' and has_cross_array_w(things[0], things[-1]):
-        return 'arrayweighting-hash-crossclass'
     return 'eq-%s-%s' % (law, cls_of(things[0]))
 
 
@@ -1942,6 +1942,55 @@ def _desc_equal(a, b):
     return fa == fb
 
 
+
+def probe_byaxis_in(rng, tier, out):
+    """discr.byaxis_in[idx]: the discretization of the selected axes (in selection order), same dtype,
+    and for spaces weighted by their cell volume the cell volume of the selection."""
+    import odl
+    n = 80 if tier == 'quick' else 500
+    ctx = Ctx()
+    for _ in range(n):
+        nd = rng.choice([1, 2, 2, 3])
+        uniform = rng.random() < 0.85
+        shape = [rng.choice([1, 2, 3, 4]) for _ in range(nd)]
+        mins = [rng.choice([0.0, -1.0, 1.0]) for _ in range(nd)]
+        sides = [rng.choice([0.5, 1.0, 0.25, 2.0]) for _ in range(nd)]
+        maxs = [a + k * h for a, k, h in zip(mins, shape, sides)]
+        dt = rng.choice(['float64', 'float32', 'complex128', 'int64'])
+        if uniform:
+            mk = "odl.uniform_discr(%r, %r, %r, dtype=%r)" % (mins, maxs, shape, dt)
+        else:
+            vecs = [sorted(rng.sample([a + 0.125 * j for j in range(1, 12)], k)) for a, k in zip(mins, shape)]
+            maxs = [v[-1] + 0.5 for v in vecs]
+            mk = ("odl.DiscretizedSpace(odl.RectPartition(odl.IntervalProd(%r, %r), odl.RectGrid(*%r)), odl.rn(%r, dtype=%r))"
+                  % (mins, maxs, vecs, tuple(shape), 'float64'))
+        k = rng.random()
+        idx = (rng.randrange(-nd, nd) if k < 0.35 else gen_slice(rng, nd) if k < 0.7 else
+               [rng.randrange(-nd, nd) for _ in range(rng.choice([0, 1, 2, 3]))])
+        if isinstance(idx, slice) and idx.step == 0:
+            idx = slice(None)
+        sel = [idx % nd] if isinstance(idx, int) else list(range(nd)[idx]) if isinstance(idx, slice) else [i % nd for i in idx]
+        rp = ("import odl, numpy as np\nd = %s\nidx = %r; sel = %r\n"
+              "try:\n    s = d.byaxis_in[idx]\n"
+              "    ok = (s.shape == tuple(d.shape[i] for i in sel) and s.dtype == d.dtype\n"
+              "          and np.array_equal(s.min_pt, d.min_pt[sel]) and np.array_equal(s.max_pt, d.max_pt[sel])\n"
+              "          and all(np.array_equal(u, d.grid.coord_vectors[i]) for u, i in zip(s.grid.coord_vectors, sel)))\n"
+              "    if ok and d.partition.is_uniform and d.is_weighted:\n"
+              "        ok = bool(np.isclose(s.weighting.const, np.prod(d.cell_sides[sel])))\n"
+              "except Exception as e:\n    observed = repr(e); ok = False\n" % (mk, idx, sel))
+        env = {}
+        try:
+            exec(rp, env)
+            ok = bool(env['ok'])
+        except Exception:
+            ok = False
+        key = ('byaxis_in-empty-selection' if not sel else
+               'byaxis_in-nonuniform-grid' if not uniform else
+               'byaxis_in-negative-step-slice' if isinstance(idx, slice) and (idx.step or 1) < 0 and len(sel) > 1 else
+               'byaxis_in-selection')
+        out.append(C.Probe(ok, key, 'byaxis_in[idx] discretizes the selected axes, same dtype, cell-volume weighting', rp))
+
+
 def probes(rng, tier):
     import warnings
     warnings.simplefilter('ignore')
@@ -1952,6 +2001,7 @@ def probes(rng, tier):
     probe_element(rng, tier, out)
     probe_derived(rng, tier, out)
     probe_indexing(rng, tier, out)
+    probe_byaxis_in(rng, tier, out)
     return out
 
 
